@@ -73,6 +73,9 @@ func parseInterval(str string) (*Interval, error) {
 		closedEnd = true
 		str = str[:len(str)-1]
 	}
+	if str == "" {
+		return nil, fmt.Errorf("invalid Interval string: empty")
+	}
 	if strings.HasPrefix(str, "-(") {
 		if !strings.HasSuffix(str, ")") {
 			return nil, fmt.Errorf(
